@@ -1,7 +1,17 @@
-(* C19 *)
+(* C19: every entry takes the separators first: sep_column (one character code), sep_protein (a string) *)
 let () =
-  reg "c19.convert_file" (fun () -> let t = rd_str () in pr_result pr_str (convert_file t));
-  reg "c19.is_valid" (fun () -> let t = rd_str () in pr_result pr_bool (is_valid t));
+  reg "c19.convert_file" (fun () ->
+      let sc = rd_z () in let sp = rd_str () in let t = rd_str () in
+      pr_result pr_str (convert_file_sep sc sp t));
+  reg "c19.is_valid" (fun () ->
+      let sc = rd_z () in let t = rd_str () in pr_result pr_bool (is_valid_sep sc t));
   reg "c19.convert_line" (fun () ->
-      let l = rd_str () in let i = rd_nat () in let n = rd_nat () in pr_str (convert_line l i n));
-  reg "c19.parse_header" (fun () -> let h = rd_str () in pr_result (pr_pair pr_nat pr_nat) (parse_header h))
+      let sc = rd_z () in let sp = rd_str () in
+      let l = rd_str () in let i = rd_nat () in let n = rd_nat () in
+      pr_str (convert_line_sep sc sp l i n));
+  reg "c19.parse_header" (fun () ->
+      let sc = rd_z () in let h = rd_str () in
+      pr_result (pr_pair pr_nat pr_nat) (parse_header_sep sc h));
+  (* the default-argument instances used by Model/Fs.v (C09): must agree with the calls without separators *)
+  reg "c19.convert_file_default" (fun () -> let t = rd_str () in pr_result pr_str (convert_file t));
+  reg "c19.is_valid_default" (fun () -> let t = rd_str () in pr_result pr_bool (is_valid t))
